@@ -6,7 +6,8 @@
    of the C02 lemmas for it (G_den, G_conv, G_pin, G_bbok, G_io, names, dots, pins_apart, outs_driven2, ports_match, NoDup of the
    drivers) - the gate statements through the shape lemmas of the blackbox-free proof applied to the module without its blackbox
    statements (m') -, read_ok, and roundtrip_equiv_bb: registry, pin attachment (bb_ok), and both directions of the equivalence
-   (consistent valuations of the original <-> models of the module <-> consistent valuations of the read-back circuit). *)
+   (consistent valuations of the original <-> models of the module <-> consistent valuations of the read-back circuit; unconnected input
+   pins through the no-reader field q_noread added to C02's invariant Qinv). *)
 From Coq Require Import Ascii.
 From CG Require Import Verilog.ExprParse.
 From stdpp Require Import strings gmap sets fin_sets pretty.
@@ -41,14 +42,15 @@ Proof.
   { intros x Hx. by apply elem_of_nil in Hx. }
   rewrite Hf. cbn [mbind res_mbind rbind]. simpl in Kp. fold (drivers m) in Kp.
   assert (HQ0 : Qinv k NN [] [] (r_g st0)).
-  { assert (E1 : pinsL [] = ∅) by done. assert (E2 : netsL [] = ∅) by done. split; [constructor| | | | |]; rewrite ?E1, ?E2.
+  { assert (E1 : pinsL [] = ∅) by done. assert (E2 : netsL [] = ∅) by done. split; [constructor| | | | | |]; rewrite ?E1, ?E2.
     - intros x Hx. by apply elem_of_empty in Hx.
     - intros x Hx. apply elem_of_union in Hx as [Hx|Hx]; by apply elem_of_empty in Hx.
     - intros x Hx. by apply elem_of_empty in Hx.
     - intros x Hx. by apply elem_of_empty in Hx.
-    - intros x Hx. by apply elem_of_empty in Hx. }
+    - intros x Hx. by apply elem_of_empty in Hx.
+    - intros y j _ x p Hx. by apply elem_of_nil in Hx. }
   destruct (items_pins k NN (list_to_set (xdrivers (k_bbs k) m).*1) Htr HNN (m_items m) st0 st [] [] Hf Hi0 HQ0 Hok Hpk Hnd ltac:(done)) as [HQ _].
-  simpl in HQ. destruct HQ as [_ _ Qd _ _ _].
+  simpl in HQ. destruct HQ as [_ _ Qd _ _ _ _].
   pose proof (items_sets _ _ _ _ Hf) as (E1 & E2 & E3). simpl in E1, E2, E3.
   change (m_items m ≫= item_ins) with (decl_inputs m) in E2. change (m_items m ≫= item_outs) with (decl_outputs m) in E3.
   apply bool_decide_eq_true in Hpm.
@@ -64,10 +66,12 @@ Proof.
     - apply Qd. by apply elem_of_union_r. }
   rewrite Hso. eauto.
 Qed.
+
 Theorem read_bb_pins_items rsv bbs m C : (list_to_set (module_nets m) : gset string) ⊆ rsv →
   Forall (item_den_ok2 (init_ctx rsv bbs).1 (list_to_set (module_nets m)) (list_to_set (xdrivers bbs m).*1)) (m_items m) → NoDup (xdrivers bbs m).*1 →
   Forall (item_pin_ok (list_to_set (module_nets m))) (m_items m) → read rsv bbs m = Ok C →
-  c_bbs C = list_to_map ((λ x : xinst, (x.1.1, x.1.2)) <$> bb_insts bbs m) ∧ ∀ x, x ∈ bb_insts bbs m → bb_ok (c_g C) x = true.
+  c_bbs C = list_to_map ((λ x : xinst, (x.1.1, x.1.2)) <$> bb_insts bbs m) ∧ (∀ x, x ∈ bb_insts bbs m → bb_ok (c_g C) x = true) ∧
+  ∀ y j, c_g C !! y = Some j → ∀ (x : xinst) p, x ∈ bb_insts bbs m → p ∈ bb_in x.1.2 → pin x.1.1 p ∉ n_fi j.
 Proof.
   intros HNN Hok Hnd Hpk H.
   rewrite (bb_insts_xit rsv bbs m).
@@ -77,15 +81,16 @@ Proof.
   apply mbind_ok in H as (st & Hf & Hfin).
   set (st0 := {| r_g := g0; r_bbs := ∅; r_ge := ∅; r_io := list_to_set (m_ports m); r_ins := ∅; r_outs := ∅ |}) in *.
   assert (HQ0 : Qinv k NN [] [] (r_g st0)).
-  { assert (E1 : pinsL [] = ∅) by done. assert (E2 : netsL [] = ∅) by done. split; [constructor| | | | |]; rewrite ?E1, ?E2.
+  { assert (E1 : pinsL [] = ∅) by done. assert (E2 : netsL [] = ∅) by done. split; [constructor| | | | | |]; rewrite ?E1, ?E2.
     - intros x Hx. by apply elem_of_empty in Hx.
     - intros x Hx. apply elem_of_union in Hx as [Hx|Hx]; by apply elem_of_empty in Hx.
     - intros x Hx. by apply elem_of_empty in Hx.
     - intros x Hx. by apply elem_of_empty in Hx.
-    - intros x Hx. by apply elem_of_empty in Hx. }
+    - intros x Hx. by apply elem_of_empty in Hx.
+    - intros y j _ x p Hx. by apply elem_of_nil in Hx. }
   destruct (items_pins k NN _ Htr HNN (m_items m) st0 st [] [] Hf Hi0 HQ0 Hok Hpk Hnd ltac:(done)) as [HQ Hi].
   pose proof (items_reg k NN _ Htr HNN (m_items m) st0 st [] Hf Hok ltac:(done)) as Hreg. simpl in HQ, Hi, Hreg.
-  fold (xdrivers (k_bbs k) m) in HQ, Hi. destruct HQ as [Qo Qt Qd Qn Qi Qs].
+  fold (xdrivers (k_bbs k) m) in HQ, Hi. destruct HQ as [Qo Qt Qd Qn Qi Qs Qr].
   unfold finish in Hfin. repeat (case_bool_decide; simpl in Hfin; try discriminate).
   destruct (set_output_g (r_g st) (elements (r_outs st)) true) as [g' o] eqn:Es. destruct o; [|discriminate].
   injection Hfin as <-. simpl. split; [exact Hreg|].
@@ -98,8 +103,13 @@ Proof.
   assert (Hc : chg (pinsL L) (netsL L) g' (drop_tie (drop_tie (drop_tie g' (k_t0 k)) (k_t1 k)) (k_tx k))).
   { eapply (chg_trans _ _ _ (drop_tie g' (k_t0 k))); [apply drop_chg; apply Hnt; unfold ties; clear; set_solver|].
     eapply (chg_trans _ _ _ (drop_tie (drop_tie g' (k_t0 k)) (k_t1 k))); apply drop_chg; apply Hnt; unfold ties; clear; set_solver. }
-  intros x Hx. eapply bb_ok_chg; [exact Hc|by apply xpins_sub|by apply xnets_sub|]. rewrite (bb_ok_ext (r_g st) g' x St Sf So).
-  rewrite Forall_forall in Qo. by apply Qo.
+  split.
+  { intros x Hx. eapply bb_ok_chg; [exact Hc|by apply xpins_sub|by apply xnets_sub|]. rewrite (bb_ok_ext (r_g st) g' x St Sf So).
+    rewrite Forall_forall in Qo. by apply Qo. }
+  intros y j Hy x p Hx Hp Hin. destruct Hc as [_ B]. destruct (B y j Hy) as [Hold|Hdisj].
+  - assert (Hfy : fanin g' y = n_fi j) by (unfold fanin; by rewrite Hold). rewrite Sf in Hfy. unfold fanin in Hfy.
+    destruct (r_g st !! y) as [j0|] eqn:E0; simpl in Hfy; [|rewrite <- Hfy in Hin; by apply elem_of_empty in Hin]. rewrite <- Hfy in Hin. by eapply (Qr y j0 E0 x p).
+  - apply (Hdisj _ Hin). apply (xpins_sub x L Hx). unfold xpins. apply elem_of_map. exists p. split; [done|by apply elem_of_union_l].
 Qed.
 
 (* ------------------------------------------------------------------ the writer's module, both styles, with blackbox statements *)
@@ -784,12 +794,12 @@ Section eqbb.
   Theorem roundtrip_equiv_bb : ∃ C', read rsv bbl m = Ok C' ∧ c_name C' = c_name C ∧ inputs (c_g C') = inputs g ∧ outputs (c_g C') = outputs g ∧ c_bbs C' = bbs ∧
     (∀ p, p ∈ of_type g (is_ty BbIn) → ty (c_g C') p = Some BbIn ∧ fanin (c_g C') p = fanin g p) ∧
     (∀ p, p ∈ of_type g (is_ty BbOut) → fanout (c_g C') p = fanout g p) ∧
-    equiv_on_x (outputs g ∪ cpins) g (c_g C').
+    equiv_on_x (outputs g ∪ of_type g (is_ty BbIn)) g (c_g C').
   Proof.
     destruct read_ok as [C' HC']. exists C'. split; [done|]. split; [rewrite (read_name _ _ _ _ HC'); by destruct Winv as (_ & _ & _ & _ & _ & _ & _ & _ & _ & _ & _ & En & _)|].
     destruct (read_io_items rsv bbl m C' G_io Hids HC') as [Hin' Hout']. rewrite E_dins in Hin'. rewrite E_douts in Hout'. destruct Winv as (_ & Ei & _ & Eo & _). rewrite Ei in Hin'. rewrite Eo in Hout'.
     split; [done|]. split; [done|].
-    destruct (read_bb_pins_items rsv bbl m C' HNN G_den xd_nodup G_pin HC') as [Hreg Hpins]. rewrite E_insts in Hreg, Hpins. fold (regL XL) in Hreg. rewrite reg_eq in Hreg. split; [done|].
+    destruct (read_bb_pins_items rsv bbl m C' HNN G_den xd_nodup G_pin HC') as (Hreg & Hpins & Hnoread). rewrite E_insts in Hreg, Hpins, Hnoread. fold (regL XL) in Hreg. rewrite reg_eq in Hreg. split; [done|].
     assert (Hpin_in : ∀ p, p ∈ of_type g (is_ty BbIn) → ty (c_g C') p = Some BbIn ∧ fanin (c_g C') p = fanin g p).
     { intros p (i & Hi & Ht)%elem_of_of_type. unfold is_ty in Ht. apply bool_decide_eq_true in Ht. symmetry in Ht.
       destruct (pin_inst p i Hi (or_introl Ht)) as (t & q & ins & outs & Ht' & -> & Hd & Eps & Hnd & Hins & Houts & [[_ Hq]|[E _]]); [|congruence].
@@ -863,16 +873,37 @@ Section eqbb.
         destruct (Hnv n HnL) as (i' & Hi' & _ & Hval). assert (i' = i) as -> by congruence. rewrite (Hv1 n i Hi) by (rewrite <- Ht; done). rewrite Hval. unfold node_val. by rewrite <- Ht.
       + intros n [(i & Hi & Ho)%elem_of_outputs|Hn]%elem_of_union.
         * apply (Hv1 n i Hi); intros Ht; rewrite (e_noout _ _ HC n i Hi) in Ho; auto; discriminate.
-        * destruct (Hcp n Hn) as (i & d & j & Hi & Hti & Hfi & Hj & H1 & H2 & Hty' & Hfi'). unfold v. rewrite Hi, Hti, Hfi.
+        * apply elem_of_of_type in Hn as (i0 & Hi0 & Ht0). unfold is_ty in Ht0. apply bool_decide_eq_true in Ht0. symmetry in Ht0. destruct (decide (n_fi i0 = ∅)) as [E0|Hne0].
+          { unfold v. rewrite Hi0, Ht0, E0, elements_empty. done. }
+          assert (Hn : n ∈ cpins) by (unfold cpins; apply elem_of_dom; exists i0; by apply map_filter_lookup_Some).
+          destruct (Hcp n Hn) as (i & d & j & Hi & Hti & Hfi & Hj & H1 & H2 & Hty' & Hfi'). unfold v. rewrite Hi, Hti, Hfi.
           assert (Eh : head (elements ({[d]} : gset string)) = Some d) by (by rewrite elements_singleton). rewrite Eh. symmetry. by apply (pin_val (c_g C') w n d).
     - intros v Hcv [X HX].
       destruct (read_conv_items rsv bbl m C' NN HNN G_den G_conv xd_nodup HC' v X) as (w & Cw & Aw).
       { intros n d Hin. rewrite E_drivers in Hin. destruct (S_drv _ _ Hin) as (i & Hi & Hg & Hsem). rewrite Hsem.
         apply (proj1 (node_ok_val v X n i Hg (e_gate _ _ HC n i Hi))). split; [by apply Hcv|]. intros Ecx. apply HX. apply elem_of_of_type. exists i. split; [done|]. rewrite Ecx. done. }
-      exists w. split; [done|]. intros n [(i & Hi & Ho)%elem_of_outputs|Hn]%elem_of_union.
-      + apply Aw. apply NN_spec. exists i. split; [done|]. split; intros Ht; rewrite (e_noout _ _ HC n i Hi) in Ho; auto; discriminate.
-      + destruct (Hcp n Hn) as (i & d & j & Hi & Hti & Hfi & Hj & H1 & H2 & Hty' & Hfi'). rewrite (pin_val (c_g C') w n d Cw Hty' Hfi'). rewrite Aw by (apply NN_spec; eauto).
-        symmetry. apply (pin_val g v n d Hcv); [unfold ty; rewrite Hi; simpl; by rewrite Hti|unfold fanin; rewrite Hi; simpl; exact Hfi].
+      set (upins := dom (filter (λ p : string * ninfo, n_ty p.2 = BbIn ∧ n_fi p.2 = ∅) g) : gset string).
+      assert (Hup : ∀ p, p ∈ upins ↔ ∃ i, g !! p = Some i ∧ n_ty i = BbIn ∧ n_fi i = ∅).
+      { intros p. unfold upins. rewrite elem_of_dom. split; [intros [i Hi]; apply map_filter_lookup_Some in Hi as [? [? ?]]; eauto|intros (i & ? & ? & ?); exists i; by apply map_filter_lookup_Some]. }
+      set (w' := (λ n, if bool_decide (n ∈ upins) then v n else w n) : val).
+      assert (Hw'1 : ∀ n, n ∉ upins → w' n = w n) by (intros n Hn; unfold w'; by rewrite bool_decide_eq_false_2).
+      exists w'. split.
+      + intros y j Hy. destruct (decide (y ∈ upins)) as [Hyu|Hyu].
+        * apply Hup in Hyu as (i & Hi & Hti & Hfi). destruct (Hpin_in y) as [Hty' Hfi']; [apply elem_of_of_type; exists i; split; [done|]; rewrite Hti; done|].
+          unfold ty, fanin in Hty', Hfi'. rewrite Hy in Hty', Hfi'. simpl in Hty', Hfi'. injection Hty' as Hty'. unfold fanin in Hfi'. rewrite Hi in Hfi'. simpl in Hfi'.
+          unfold node_ok, is_free. rewrite Hty', Hfi', Hfi. by rewrite bool_decide_eq_true_2.
+        * apply (node_ok_ext w w' y y j); [by rewrite Hw'1| |by apply Cw]. intros f Hf. symmetry. apply Hw'1. intros (i & Hi & Hti & Hfi)%Hup.
+          destruct (pin_inst f i Hi (or_introl Hti)) as (t & q & ins & outs & Ht' & -> & Hd & Eps & Hnd & Hins & Houts & [[_ Hq]|[E _]]); [|congruence].
+          exact (Hnoread y j Hy t q Ht' Hq Hf).
+      + intros n [(i & Hi & Ho)%elem_of_outputs|Hn]%elem_of_union.
+        * rewrite Hw'1. { apply Aw. apply NN_spec. exists i. split; [done|]. split; intros Ht; rewrite (e_noout _ _ HC n i Hi) in Ho; auto; discriminate. }
+          intros (i' & Hi' & Hti' & _)%Hup. assert (i' = i) as -> by congruence. rewrite (e_noout _ _ HC n i Hi) in Ho; auto; discriminate.
+        * apply elem_of_of_type in Hn as (i0 & Hi0 & Ht0). unfold is_ty in Ht0. apply bool_decide_eq_true in Ht0. symmetry in Ht0. destruct (decide (n_fi i0 = ∅)) as [E0|Hne0].
+          { unfold w'. rewrite bool_decide_eq_true_2; [done|]. apply Hup. eauto. }
+          assert (Hn : n ∈ cpins) by (unfold cpins; apply elem_of_dom; exists i0; by apply map_filter_lookup_Some).
+          rewrite Hw'1 by (intros (i' & Hi' & _ & Hfi')%Hup; congruence).
+          destruct (Hcp n Hn) as (i & d & j & Hi & Hti & Hfi & Hj & H1 & H2 & Hty' & Hfi'). rewrite (pin_val (c_g C') w n d Cw Hty' Hfi'). rewrite Aw by (apply NN_spec; eauto).
+          symmetry. apply (pin_val g v n d Hcv); [unfold ty; rewrite Hi; simpl; by rewrite Hti|unfold fanin; rewrite Hi; simpl; exact Hfi].
   Qed.
 End eqbb.
 
